@@ -9,6 +9,12 @@ claim("C18",
       STATIC_NOTE + "Go memory model for atomics/channels; task functions terminate; Pool used from one goroutine at a time (its documented contract). Not decided: scheduler fairness.",
       "DESIGN.md §4 C18")
 
+claim("C17",
+      "lockset analysis (guarded-field inference + lock-held dominance, wrapper summaries, entry-lock fixpoint over call sites) and close-once typestate (Running/Finished facts from dominating nil tests) over the SSA of both handlers, round.Helper and point marshalling",
+      "Decides for every interleaving of API calls: all accesses to handler fields written after construction hold the handler mutex; no re-entrant locking; the outgoing channel is closed at one site, reached only in state Running established under the lock, at most once per frame, with nothing sent afterwards; err/result assigned only in that transition; Stop reaches it with an error; exported methods mutate state only while Running; Helper's hash state under its own mutex; point MarshalBinary does not write its receiver. Right level: data-race freedom and close-once are lock/ordering facts visible on every path, independent of schedules.",
+      STATIC_NOTE + "Go memory model (common-lock criterion). Not decided: liveness when the user does not drain the outgoing channel (excluded by the property); panics inside round code (decided under C05).",
+      "DESIGN.md §4 C17")
+
 for p, why in {
     "C01": "not built yet", "C02": "not built yet", "C03": "not built yet", "C04": "not built yet", "C05": "not built yet",
     "C06": "not built yet", "C07": "not built yet", "C08": "not built yet", "C09": "not built yet", "C10": "not built yet",
